@@ -272,3 +272,25 @@ package clickhouse_planner
 //@ func (mapDropFilter).genFilterFn [C07]
 //@   flag checks=-index
 //@   at strings.Join every-drop-clause-applies: arg1 == " and "
+
+// Label filters that come before the first parser are applied to the stored labels
+// of the series: each of them wraps the stream selection built so far, so the
+// selection ends up as a chain that contains every one of them - none replaces
+// another, none is skipped.
+//@ func getStreamSelector
+//@   flag function
+//@   modifies nothing
+//@ func getPipeline
+//@   flag function
+//@   modifies nothing
+//@ func NewStreamSelectPlanner
+//@   modifies nothing
+//@ func (*planner).planTS [C07]
+//@   flag checks=-index,-assert
+//@   modifies p.fpPlanner
+//@   loop 1:
+//@     modifies nothing
+//@   loop 2:
+//@     modifies p.fpPlanner
+//@     step every-early-label-filter-wraps-the-chain: p.fpPlanner == prev(p.fpPlanner) || (typeis(p.fpPlanner, "*SimpleLabelFilterPlanner") && unbox(p.fpPlanner, "*SimpleLabelFilterPlanner").FPSel == prev(p.fpPlanner))
+//@     step no-early-label-filter-is-skipped: p.simpleLabelOperation[rangeindex] && getPipeline(p.script)[rangeindex].LabelFilter != nil ==> typeis(p.fpPlanner, "*SimpleLabelFilterPlanner") && fresh(unbox(p.fpPlanner, "*SimpleLabelFilterPlanner")) && unbox(p.fpPlanner, "*SimpleLabelFilterPlanner").Expr == getPipeline(p.script)[rangeindex].LabelFilter
